@@ -63,6 +63,9 @@ CORPUS = [
     ('gfa2', _adds(['S\tA\t10\t*', 'S\tB\t10\t*', 'E\te1\tA+\tB+\t7\t10$\t0\t3\t*', 'G\tg1\tA+\tB-\t5\t*', 'U\tu1\tA B', 'O\to1\tA+ B+'])
      + [('rename', 'e1', '*'), ('rename', 'g1', '*'), ('rename', 'u1', '*'), ('rename', 'o1', '*'),
         ('add', 'G\te1\tB+\tA-\t1\t*'), ('add', 'U\tg1\tA'), ('rename', 'A', 'u1')]),
+    # two paths over one hairpin step, read before the link; the second quotes the complement overlap (F71)
+    ('gfa1', _adds(['P\tp1\tx+,x-\t*', 'S\tx\t*', 'P\tp0\tx+,x-\t5D1I1D', 'L\tx\t+\tx\t-\t1I1D5I'])),
+    ('gfa1', _adds(['P\tp1\tx-,x+\t3I5I3P', 'P\tp0\tx-,x+\t*', 'S\tx\t*\tLN:i:20', 'L\tx\t-\tx\t+\t3P5D3D'])),
     # groups of the two kinds do not merge with each other; groups of one kind do
     ('gfa2', _adds(['S\tA\t10\t*', 'S\tB\t10\t*', 'U\tg\tA B', 'O\tg\tA+', 'O\to\tA+', 'U\to\tA', 'U\tg\tB\txx:i:1', 'O\to\tA-',
                     'E\tg\tA+\tB+\t7\t10$\t0\t3\t*', 'S\to\t5\t*'])),
